@@ -147,6 +147,7 @@ def prepare(ctx, spec):
         ctx.cov["obligations"] = len(thms)
         ctx.cov["discharged"] = sum(1 for (_, n) in built if n in axioms and set(axioms[n]) <= E.ALLOWED_AXIOMS)
         ctx.cov["proved"] = [t.get("what", t["name"]) for t in spec.get("theorems", []) if t["name"] in axioms]
+        ctx.cov["validated_only"] = list(spec.get("validated_only", []))
         for (_, n) in built:
             if n not in axioms:
                 ctx.note_broken("obligation", n, "theorem not found / did not check")
